@@ -3,7 +3,7 @@
 #ifndef SPEC_MAXBUF
 #define SPEC_MAXBUF 1400
 #endif
-#ifdef VERIF_CUT2
+#if defined(VERIF_CUT2) && defined(__CPROVER__)
 void abs_H(unsigned char out[32], const unsigned char *in, size_t len);
 void spec_H(unsigned char out[32], const unsigned char *in, size_t len) { abs_H(out, in, len); }
 #else
